@@ -1,6 +1,6 @@
 //verif:package github.com/kstenerud/go-concise-encoding/iterator
 //verif:config paths=600000
-//verif:bounds leaf iterators on reflect.ValueOf(x): []bool of 0..12 elements (quick) / 0..17 (thorough), all values, []uint16/[]uint32/[]uint64/[]int16/[]int32/[]int64/[]float32/[]float64 of 0..3 elements with every bit symbolic; types.Edge and types.Node with integer / nil components
+//verif:bounds leaf iterators on reflect.ValueOf(x): []bool of 0..12 elements (quick) / 0..14 (thorough), all values, []uint16/[]uint32/[]uint64/[]int16/[]int32/[]int64/[]float32/[]float64 of 0..3 elements with every bit symbolic; types.Edge and types.Node with integer / nil components
 //verif:assume reflect.Value is the engine's small emulation (ValueOf, Len, Index, Bool, Uint, Int, Float, Field, Elem, Kind, Type, IsNil, IsValid); Context.GetIteratorForType is supplied by the harness (integers only); struct/map/list/pointer iterators, records, omit rules and recursion support are reflection-built and outside reach
 package iterator
 
@@ -34,7 +34,7 @@ func harnessContext() (*Context, *verifh.Rec, *rules.RulesEventReceiver) {
 func Verif_C05_BoolSlice() {
 	maxN := 12 // every element is a branch in the code under test: 2^n paths per length
 	if verifrt.Thorough() {
-		maxN = 17
+		maxN = 14
 	}
 	n := verifrt.Choice("len", maxN+1)
 	s := make([]bool, n)
